@@ -6,7 +6,7 @@ Definition c20_run := Externals.run.
 Definition c20_world0 := Externals.world0.
 Definition c20_eval_cond := Externals.eval_cond.
 Definition c20_subst_c := Externals.subst_c.
-Definition c10_run := ScannerHist.run.
-Definition c10_step := ScannerHist.step.
+Definition c10_run := ScannerHist.run cfg_current.
+Definition c10_step := ScannerHist.step cfg_current.
 Definition c10_fresh := ScannerHist.fresh.
 Definition c10_heap_live := ScannerHist.heap_live.
